@@ -68,8 +68,11 @@ type Scn struct {
 	Parent     []int    // Parent[i] = parent of widget i+1 (0 for the root, widget 1)
 	Caps       []bool   // Caps[i]: widget i+1 implements EventCapturer
 	Lays       [][]Geom // layouts; Lays[k][i] = geometry of widget i+1 relative to its parent
-	Rules      []Rule
-	Steps      []Step
+	// Hid[k] = widgets (ids) that their parent's Draw does not add as a child in
+	// layout k: they and their subtrees are not part of a frame drawn from it
+	Hid   [][]int `json:",omitempty"`
+	Rules []Rule
+	Steps []Step
 }
 
 // StackDump, when set, receives all goroutine stacks when a sentinel is not
@@ -271,6 +274,17 @@ func (s *session) currentLay() int {
 	return s.lay
 }
 
+func (sc *Scn) hidden(lay, id int) bool {
+	if lay < len(sc.Hid) {
+		for _, h := range sc.Hid[lay] {
+			if h == id {
+				return true
+			}
+		}
+	}
+	return false
+}
+
 func (s *session) surface(id, lay int) vxfw.Surface {
 	g := s.sc.Lays[lay][id-1]
 	sf := vxfw.NewSurface(uint16(g.W), uint16(g.H), s.ws[id-1])
@@ -281,7 +295,7 @@ func (s *session) surface(id, lay int) vxfw.Surface {
 		}
 	}
 	for k := range s.sc.Parent {
-		if s.sc.Parent[k] == id {
+		if s.sc.Parent[k] == id && !s.sc.hidden(lay, k+1) {
 			kg := s.sc.Lays[lay][k]
 			sf.AddChild(kg.X, kg.Y, s.surface(k+1, lay))
 			sf.Children[len(sf.Children)-1].ZIndex = kg.Z
@@ -424,7 +438,7 @@ func Run(ctx *Ctx, sc *Scn) (evs []trace.Ev, note string) {
 	for k, l := range sc.Lays {
 		gs := make([]any, n)
 		for i, g := range l {
-			gs[i] = map[string]any{"x": g.X, "y": g.Y, "w": g.W, "h": g.H, "z": g.Z}
+			gs[i] = map[string]any{"x": g.X, "y": g.Y, "w": g.W, "h": g.H, "z": g.Z, "hid": sc.hidden(k, i+1)}
 		}
 		lays[k] = gs
 	}
